@@ -28,6 +28,8 @@ pub struct Cfg {
     pub key_le: bool,
     /// `prefix=`: blob file name prefix (default `t`; the file commands of the harness assume the default)
     pub prefix: String,
+    /// `corrdir=`: name of the directory for quarantined blobs (default `corrupted`; listings print it as `corrupted`)
+    pub corrdir: String,
 }
 
 impl Default for Cfg {
@@ -48,6 +50,7 @@ impl Default for Cfg {
             savedir: None,
             key_le: false,
             prefix: "t".to_string(),
+            corrdir: "corrupted".to_string(),
         }
     }
 }
@@ -84,6 +87,7 @@ pub fn parse_cfg(script: &str) -> Cfg {
                     "nomodel" | "bloombits" => {}
                     "order" => c.key_le = v == "le",
                     "prefix" => c.prefix = v.to_string(),
+                    "corrdir" => c.corrdir = v.to_string(),
                     "usedir" => c.usedir = Some(v.to_string()),
                     "savedir" => c.savedir = Some(v.to_string()),
                     _ => panic!("unknown cfg key {}", k),
@@ -132,6 +136,9 @@ impl<const N: usize> St<N> {
         }
         if self.cfg.ignore {
             b = b.ignore_corrupted();
+        }
+        if self.cfg.corrdir != "corrupted" {
+            b = b.corrupted_dir_name(self.cfg.corrdir.clone());
         }
         if let Some(bc) = &self.cfg.bloom {
             b = b.set_filter_config(bc.clone());
@@ -259,6 +266,11 @@ fn copy_dir(src: &Path, dst: &Path) {
 }
 
 fn list_dir(dir: &Path) -> String {
+    list_dir_as(dir, "corrupted")
+}
+
+/// the configured quarantine directory is printed as `corrupted/` whatever its name is
+fn list_dir_as(dir: &Path, corrdir: &str) -> String {
     let mut items = Vec::new();
     fn walk(base: &Path, dir: &Path, items: &mut Vec<String>) {
         if let Ok(rd) = std::fs::read_dir(dir) {
@@ -277,6 +289,12 @@ fn list_dir(dir: &Path) -> String {
         }
     }
     walk(dir, dir, &mut items);
+    if corrdir != "corrupted" {
+        let pre = format!("{}/", corrdir);
+        for it in items.iter_mut() {
+            if let Some(rest) = it.strip_prefix(&pre) { *it = format!("corrupted/{}", rest); }
+        }
+    }
     items.sort();
     items.join(" ")
 }
@@ -510,7 +528,7 @@ async fn exec<const N: usize>(st: &mut St<N>, ctx: &mut Ctx, toks: &[&str]) {
             ctx.emit(format!("disk {}", s.disk_used().await));
         }
         ("ls", []) => {
-            ctx.emit(format!("ls {}", list_dir(&st.dir)));
+            ctx.emit(format!("ls {}", list_dir_as(&st.dir, &st.cfg.corrdir)));
         }
         ("close", []) => match st.storage.take() {
             Some(s) => match s.close().await {
@@ -681,7 +699,8 @@ async fn exec<const N: usize>(st: &mut St<N>, ctx: &mut Ctx, toks: &[&str]) {
             // earlier content as a prefix
             let mut problems = Vec::new();
             let mut cur: HashMap<String, Vec<u8>> = HashMap::new();
-            for sub in ["", "corrupted"] {
+            let corrdir = st.cfg.corrdir.clone();
+            for sub in ["", corrdir.as_str()] {
                 if let Ok(rd) = std::fs::read_dir(st.dir.join(sub)) {
                     for e in rd.flatten() {
                         let name = e.file_name().to_string_lossy().to_string();
